@@ -292,8 +292,8 @@ func c13LateInject(c *c13Ctx) {
 
 func c13Scenarios() []*explore.Scenario {
 	return []*explore.Scenario{
-		{Name: "2w2p-2r-preloaded", Quick: explore.Bounds{P: 2}, Thorough: explore.Bounds{P: 3}, Body: func(e *vsched.Exec) { c13Preloaded(&c13Ctx{e: e}) }},
-		{Name: "1w2p-2r-late-inject", Quick: explore.Bounds{P: 2}, Thorough: explore.Bounds{P: 3}, Body: func(e *vsched.Exec) { c13LateInject(&c13Ctx{e: e}) }},
+		{Name: "2w2p-2r-preloaded", Quick: explore.Bounds{P: 2, FreeSwitch: true}, Thorough: explore.Bounds{P: 3, FreeSwitch: true}, Body: func(e *vsched.Exec) { c13Preloaded(&c13Ctx{e: e}) }},
+		{Name: "1w2p-2r-late-inject", Quick: explore.Bounds{P: 2, FreeSwitch: true}, Thorough: explore.Bounds{P: 3, FreeSwitch: true}, Body: func(e *vsched.Exec) { c13LateInject(&c13Ctx{e: e}) }},
 	}
 }
 
